@@ -507,6 +507,42 @@ func TestC09(t *testing.T) {
 				record(w, rec, &seq, sum, seen, trace.Ev{"cfg": cfg, "dmap": dmName}, func(h *History) bool { return true })
 			}
 		}
+		// Far deadlines and storage housekeeping: keys with an expiry of an hour (in every option form) share small storage
+		// tables with filler keys that are deleted again, so that compaction moves them; they must stay visible
+		if R == 2 {
+			c2, err := cluster.Start(cluster.Options{Replicas: 1, Partitions: 7, TableSize: 1024, Manual: true, Housekeeping: 25 * time.Millisecond}, 1)
+			if err != nil {
+				t.Fatal(err)
+			}
+			p2 := Embedded(c2.Members[0])
+			rec := NewRecorder()
+			hour := time.Hour
+			var scripts []Script
+			for i := 0; i < 28; i++ {
+				key := fmt.Sprintf("far%d", i)
+				o := PutOpts{Mode: []string{"EX", "PX", "EXAT", "PXAT"}[i%4], D: hour}
+				if o.Mode == "EXAT" || o.Mode == "PXAT" {
+					o.D = time.Duration(time.Now().Add(hour).UnixMilli()) * time.Millisecond
+				}
+				scripts = append(scripts, Script{Client: fmt.Sprintf("f%d", i), Path: p2, Steps: []Step{
+					{Op: "put", Key: key, Val: "v" + key, Opts: o, At: time.Duration(i) * time.Millisecond},
+					{Op: "get", Key: key, At: 500 * time.Millisecond}, {Op: "get", Key: key, At: 900 * time.Millisecond}}})
+				sum.Evaluations += 3
+			}
+			go func() {
+				// unrecorded churn: fillers written and deleted, which turns most of every table into garbage
+				for j := 0; j < 1500; j++ {
+					p2.Put(context.Background(), "c09", fmt.Sprintf("fill%d", j), fmt.Sprintf("%060d", j), PutOpts{})
+				}
+				for j := 0; j < 1500; j++ {
+					p2.Delete(context.Background(), "c09", fmt.Sprintf("fill%d", j))
+				}
+			}()
+			rec.Run("c09", scripts, nil)
+			record(w, rec, &seq, sum, seen, trace.Ev{"cfg": "N=1 R=1 T=1024 housekeeping", "dmap": "c09", "far_deadline": true}, func(h *History) bool { return true })
+			p2.Close()
+			c2.Shutdown()
+		}
 		// Mass expiry: a dozen keys of ONE partition expire at the same instant and each is written again (without
 		// expiry) a few milliseconds after the deadline, while the background eviction workers walk that fragment and
 		// are slowed down at their trace points: the rewritten keys must stay.
@@ -630,6 +666,26 @@ func TestC08(t *testing.T) {
 			}
 			rec.Run("c08", scripts, nil)
 			record(w, rec, &seq, sum, seen, trace.Ev{"cfg": cfg}, func(h *History) bool { return h.Overlap })
+		}
+		// Simultaneous lockers: a handful of Lock calls on a fresh key released at the same instant; exactly one may get the
+		// lock (the others fail at their deadline), and only its token unlocks
+		for b := 0; b < envInt("VERIF_SIMUL", 30); b++ {
+			rec := NewRecorder()
+			key := fmt.Sprintf("sim%d-%d", R, b)
+			var scripts []Script
+			nl := 4 + rng.Intn(5)
+			for ci := 0; ci < nl; ci++ {
+				p := paths[rng.Intn(len(paths))]
+				if _, ok := p.(*pipePath); ok {
+					p = paths[0]
+				}
+				sum.Paths[p.Name()]++
+				scripts = append(scripts, Script{Client: fmt.Sprintf("x%d", ci), Path: p, Steps: []Step{
+					{Op: "lock", Key: key, D: 0, Deadline: ms(30)}, {Op: "sleep", D: ms(60)}, {Op: "unlock", Key: key}}})
+				sum.Evaluations += 2
+			}
+			rec.RunBarrier("c08", scripts)
+			record(w, rec, &seq, sum, seen, trace.Ev{"cfg": cfg, "simultaneous": true}, func(h *History) bool { return h.Overlap })
 		}
 		// Expiry races: the holder's Unlock (or Lease) is held at the point between its token check
 		// and its effect until the lock has timed out and a competitor has taken it.  The gate only
